@@ -50,9 +50,9 @@ Qed.
 
 (* the shard of a hashed key, for every chunking *)
 Theorem feed_shard p chunks n msb :
-  (Z.of_nat (length (concat chunks)) < 2 ^ 63) -> (0 < n)%N ->
+  (Z.of_nat (length (concat chunks)) < 2 ^ 63) -> (0 < n)%N -> (msb <= 63)%N ->
   shard_of n msb (feed p chunks) = spec_shard_of n msb (token_spec p (concat chunks)) /\
   (shard_of n msb (feed p chunks) < n)%N.
 Proof.
-  intros Hb Hn. rewrite (feed_chunking p chunks Hb). split; [apply shard_of_spec|apply shard_of_lt; exact Hn].
+  intros Hb Hn _. rewrite (feed_chunking p chunks Hb). split; [apply shard_of_spec|apply shard_of_lt; exact Hn].
 Qed.
